@@ -5,11 +5,12 @@
   seeded/<id>/patch.diff            must be reported (by the property it was written against)
   benign_seeded/<id>/patch.diff     must stay silent
   checker/testdata/mutants/*.json   each mutant's `expect` rules must fire; `kind: benign` silent
+  checker/testdata/derived/<id>/    a benign maintenance change plus one breaking edit: `expect` rules must fire
 
 Each item: `git worktree add` under a fresh temp directory, apply, run the checker binary
 with -repo <worktree> and evidence to a scratch directory, remove both. N at a time.
 
-usage: partest.py [seeded|benign|mutants|all] [--only SUBSTR] [-j N] [--write]
+usage: partest.py [seeded|benign|derived|mutants|all] [--only SUBSTR] [-j N] [--write]
   --write  rewrite seeded/MATRIX.{json,md}, benign_seeded/RESULT.json, testdata/selftest_result.json
 """
 import json, os, sys, glob, tempfile, shutil, subprocess, concurrent.futures as cf
@@ -134,6 +135,20 @@ def main():
             bad += len(alarms)
             if write and not only:
                 json.dump(rows, open(os.path.join(VERIF, "benign_seeded", "RESULT.json"), "w"), indent=1)
+        if which in ("derived", "all"):
+            ds = [d for d in sorted(glob.glob(os.path.join(VERIF, "checker/testdata/derived", "*"))) if not only or only in os.path.basename(d)]
+            res = list(ex.map(eval_patch, ds))
+            fails = []
+            for d, r in zip(ds, res):
+                exp = json.load(open(os.path.join(d, "expect.json")))["expect"]
+                if not r["applies"]:
+                    fails.append(os.path.basename(d)); print("%-45s STALE-PATCH" % os.path.basename(d)); continue
+                ok = all(e in r["rules"] for e in exp)
+                if not ok:
+                    fails.append(os.path.basename(d))
+                print("%-45s %s expected %s got %s" % (os.path.basename(d), "ok  " if ok else "FAIL", exp, r["rules"]))
+            print("derived: %d items, %d failures %s" % (len(ds), len(fails), fails))
+            bad += len(fails)
         if which in ("mutants", "all"):
             ms = []
             for f in sorted(glob.glob(os.path.join(VERIF, "checker/testdata/mutants/*.json"))):
